@@ -726,6 +726,8 @@ class Interp:
         ghosts = {}
         for g, ty in spec.ghosts.items():
             v = ty.fresh(ctx, 'ghost!' + g)
+            if isinstance(v, VCell):
+                v = v.content
             ghosts[g] = v.t if hasattr(v, 't') else v
         return ghosts
 
@@ -776,6 +778,8 @@ class Interp:
         ex = {'i': i, 'seq': src.term}
         ex.update(ghosts)
         self.assume_inv(spec, fr, ex)
+        if spec.assume_seq is not None:
+            ctx.assume(spec.assume_seq(self.clause_env(fr, ex)), heavy=True)
         fr.ghost_values.update(ghosts)
         fr.ghost_values['i%d' % ordinal] = i
         fr.ghost_values['seq%d' % ordinal] = src.term
@@ -1214,8 +1218,18 @@ class Interp:
                 kwargs.update(self.lib.spread_kwargs(self, d, k))
             else:
                 kwargs[k.arg] = self.eval(k.value, fr)
+        self.last_call_record = None
         self.engine.note_call(self, e, fv, args, kwargs, fr)
-        return self.call(fv, args, kwargs, e)
+        rec = self.last_call_record
+        r = self.call(fv, args, kwargs, e)
+        if rec is not None:
+            from .contract import view
+            rec.result_raw = r
+            try:
+                rec.result = view(self, r, self.ctx.heap)
+            except Exception:
+                rec.result = None
+        return r
 
     def call(self, fv, args, kwargs, node):
         fv = self.ctx.force(fv)
